@@ -2,6 +2,7 @@
 
 AN tables <all|from|join> <dialect> <hex text>
 AN columns <all|select|join|where|group|having|order|hash> <dialect> <hex text>
+AN lineage <dialect> <hex catalogue> <hex text>
 """
 import canon
 
@@ -41,7 +42,68 @@ def an_columns(kind, dialect, text):
         return canon.err_kind(e)
 
 
+_GETTER = None
+
+
+def getter_class():
+    """a CreateTableStatementGetter that serves the catalogue from a dict and records the names it is asked for"""
+    global _GETTER
+    if _GETTER is None:
+        from metasequoia_sql.analyzer import CreateTableStatementGetter
+
+        class DictGetter(CreateTableStatementGetter):
+            def __init__(self, catalogue):
+                super().__init__(None)
+                self.catalogue, self.asked = catalogue, []
+
+            def get_sql(self, full_table_name):
+                self.asked.append(full_table_name)
+                return self.catalogue[full_table_name.strip("`")]
+        _GETTER = DictGetter
+    return _GETTER
+
+
+def parse_catalogue(text):
+    """`CREATE TABLE …; CREATE TABLE …` -> {"schema.table" | "table": statement text}"""
+    from metasequoia_sql import SQLParser
+    cat = {}
+    for piece in text.split(";"):
+        if not piece.strip(" \t\n\r\x0b\x0c"):
+            continue
+        ast = SQLParser.parse_create_table_statement(piece)
+        if type(ast).__name__ != "ASTCreateTableStatement":
+            raise ValueError("not a plain CREATE TABLE")
+        t = ast.table_name
+        key = "%s.%s" % (t.schema_name, t.table_name) if t.schema_name else t.table_name
+        if key not in cat:
+            cat[key] = piece
+    return cat
+
+
+def an_lineage(dialect, cat_text, text):
+    import contextlib, io
+    from metasequoia_sql.analyzer.data_linage.table_lineage_analyzer import TableLineageAnalyzer
+    try:
+        cat = parse_catalogue(cat_text)
+    except Exception:
+        return "BADREQ catalogue"
+    g = getter_class()(cat)
+    try:
+        stmt = _first_statement(dialect, text)
+        kind = type(stmt).__name__
+        if kind not in ("ASTSingleSelectStatement", "ASTUnionSelectStatement", "ASTInsertSelectStatement"):
+            return "BADREQ statement"
+        with contextlib.redirect_stdout(io.StringIO()):      # the analyzer prints its upstream tables before raising "no match"
+            an = TableLineageAnalyzer(g)
+            res = an.get_insert_table_lineage(stmt).all_columns() if kind == "ASTInsertSelectStatement" else an.get_select_table_lineage(stmt).all_columns()
+        return "OK " + canon.dump(res) + " ASKED " + canon.dump(g.asked)
+    except Exception as e:
+        return canon.err_kind(e)
+
+
 def an(parts):
+    if len(parts) == 5 and parts[1] == "lineage":
+        return an_lineage(parts[2], canon.unhex(parts[3]), canon.unhex(parts[4]))
     if len(parts) == 5 and parts[1] == "columns":
         return an_columns(parts[2], parts[3], canon.unhex(parts[4]))
     if len(parts) == 5 and parts[1] == "tables":
